@@ -75,6 +75,23 @@ Definition l_shutdown (upgrading : bool) (l : listener) : listener :=
 Definition l_accepts (l : listener) : bool :=
   andb (l_loop l) (match l_sock l with SOpen => true | _ => false end).
 
+(* what a TCP connect to the listener's address meets: refused (no listening socket), left in the kernel backlog (socket
+   listening, nobody accepts: the connection is established but never read), or accepted by this process *)
+Inductive connect_result := CRefused | CBacklog | CAccepted.
+Definition l_connect (l : listener) : connect_result :=
+  match l_sock l with
+  | SOpen => if l_loop l then CAccepted else CBacklog
+  | SDeadline => CBacklog
+  | SNone | SClosed => CRefused
+  end.
+
+(* the listener state at the moment Shutdown calls cb.OnShutdown() (the drain), if it calls it *)
+Definition l_at_drain (upgrading : bool) (l : listener) : option listener :=
+  if upgrading then
+    let (l', changed) := l_stop_accept l in if changed then Some l' else None
+  else
+    if l_bind l then Some (l_close l) else None.
+
 Inductive lop := OpStart (restart : bool) | OpShutdown (upgrading : bool) | OpClose | OpStopAccept.
 Definition l_step (l : listener) (o : lop) : listener :=
   match o with
@@ -209,14 +226,22 @@ Definition wmsg_case_ok (k : wmsg_case) : bool :=
   end.
 Definition wmsg_mismatches (l : list wmsg_case) : list nat := mismatches_from wmsg_case_ok 0 l.
 
-(* listener: bind, ops with the observation after each op: (op, accepted-by-this-process, OnShutdown calls so far) *)
-Definition lis_case := (bool * list (lop * bool * nat))%type.
-Fixpoint lis_run_ok (l : listener) (tr : list (lop * bool * nat)) : bool :=
+(* listener: bind, ops with the observation after each op: (op, accepted-by-this-process, OnShutdown calls so far,
+   result of a connect made INSIDE the OnShutdown callback of this op: 0 refused, 1 established but not accepted,
+   2 accepted, 9 OnShutdown was not called) *)
+Definition connect_code (c : connect_result) : N := match c with CRefused => 0 | CBacklog => 1 | CAccepted => 2 end%N.
+Definition drain_probe (l : listener) (o : lop) : N :=
+  match o with
+  | OpShutdown u => match l_at_drain u l with Some l' => connect_code (l_connect l') | None => 9%N end
+  | _ => 9%N
+  end.
+Definition lis_case := (bool * list (lop * bool * nat * N))%type.
+Fixpoint lis_run_ok (l : listener) (tr : list (lop * bool * nat * N)) : bool :=
   match tr with
   | [] => true
-  | (o, acc, dr) :: tr' =>
+  | (o, acc, dr, pr) :: tr' =>
       let l' := l_step l o in
-      andb (andb (Bool.eqb (l_accepts l') acc) (Nat.eqb (l_drains l') dr)) (lis_run_ok l' tr')
+      andb (andb (andb (Bool.eqb (l_accepts l') acc) (Nat.eqb (l_drains l') dr)) (N.eqb (drain_probe l o) pr)) (lis_run_ok l' tr')
   end.
 Definition lis_case_ok (k : lis_case) : bool := match k with (b, tr) => lis_run_ok (l_init b false) tr end.
 Definition lis_mismatches (l : list lis_case) : list nat := mismatches_from lis_case_ok 0 l.
